@@ -9,9 +9,13 @@ let obs fmt = Printf.printf ("< " ^^ fmt ^^ "\n")
 
 (* per-case state *)
 let files : (string, handle option) Hashtbl.t = Hashtbl.create 8
-let reset_case () = Hashtbl.reset files
+let snaps : (string, (arc list * bool) option) Hashtbl.t = Hashtbl.create 8
+let reset_case () = Hashtbl.reset files; Hashtbl.reset snaps
 let get_file name = try Hashtbl.find files name with Not_found -> None
 let set_file name h = Hashtbl.replace files name h
+let take_snap name = match (try Hashtbl.find files name with Not_found -> None) with
+  | Some h -> Hashtbl.replace snaps name (Some (h.hd_disk, h.hd_hdr_on_disk))
+  | None -> Hashtbl.replace snaps name None
 let case_hooks : (unit -> unit) list ref = ref []
 
 let zi s = z_of_dec s
@@ -53,7 +57,7 @@ let () =
        | ["m"; m; "x"; x] ->
          (match create (zi m) (z_of_hex x) l with
           | None -> set_file name None; obs "create err"
-          | Some h -> set_file name (Some h); obs "create ok")
+          | Some h -> set_file name (Some h); take_snap name; obs "create ok")
        | _ -> failwith "create")
     | _ -> failwith "create");
   register "upd" (fun tk -> match tk with
@@ -71,7 +75,7 @@ let () =
         obs "fetch %s" (show_fetch (h_fetch h (zi id) (zi f) (zi u) (zi now))))
     | _ -> failwith "fetch");
   register "dfetch" (fun tk -> match tk with
-    | [_; name; id; f; u; now] -> with_file "dfetch" name (fun h ->
+    | [_; name; id; f; u; now] -> (match get_file name with None -> obs "dfetch openerr" | Some h ->
         match h_dfetch h (zi id) (zi f) (zi u) (zi now) with
         | None -> obs "dfetch openerr"
         | Some r -> obs "dfetch %s" (show_fetch r))
@@ -86,7 +90,7 @@ let () =
           obs "raw [%s]" (String.concat " " (List.map (fun (t, v) -> Printf.sprintf "%d:%s" t v) l)))
     | _ -> failwith "raw");
   register "sync" (fun tk -> match tk with
-    | [_; name] -> with_file "sync" name (fun h -> set_file name (Some (sync h)); obs "sync ok")
+    | [_; name] -> with_file "sync" name (fun h -> set_file name (Some (sync h)); take_snap name; obs "sync ok")
     | _ -> failwith "sync");
   register "drop" (fun tk -> match tk with
     | [_; name] -> with_file "drop" name (fun _ -> obs "drop ok")
@@ -96,9 +100,18 @@ let () =
         | Some h' -> set_file name (Some h'); obs "open ok"
         | None -> obs "open err")
     | _ -> failwith "open");
-  (* the bytes on disk change only in Sync (C05_disk_changes_only_in_flush) *)
+  (* disk NAME: is the file on disk what it was at the last snapshot (taken at create, at every
+     sync and by snap)?  In the model the disk changes only in Sync (and in commands that Sync). *)
+  register "snap" (fun tk -> match tk with
+    | [_; name] -> (match get_file name with
+        | Some h -> Hashtbl.replace snaps name (Some (h.hd_disk, h.hd_hdr_on_disk)); obs "snap ok"
+        | None -> Hashtbl.replace snaps name None; obs "snap ok")
+    | _ -> failwith "snap");
   register "disk" (fun tk -> match tk with
-    | [_; _name] -> obs "disk same"
+    | [_; name] ->
+      let cur = match get_file name with Some h -> Some (h.hd_disk, h.hd_hdr_on_disk) | None -> None in
+      let old = try Hashtbl.find snaps name with Not_found -> None in
+      obs "disk %s" (if cur = old then "same" else "changed")
     | _ -> failwith "disk")
 
 let main () =
